@@ -30,11 +30,20 @@ func genC07(g GenCtx) interface{} {
 	i := g.Idx % len(fam)
 	j := (g.Idx / len(fam)) % len(fam)
 	sc.Filters = []world.FilterSpec{fam[i], fam[j]}
+	if g.Idx%2 == 1 {
+		// the other half of the runs: random terms and near-miss pairs
+		f1 := randFilterTerm(rng, 2)
+		f2 := relatedFilter(rng, f1)
+		if rng.Intn(4) == 0 {
+			f2 = randFilterTerm(rng, 2)
+		}
+		sc.Filters = []world.FilterSpec{f1, f2}
+	}
 	switch rng.Intn(3) {
 	case 0:
-		sc.Filters = append(sc.Filters, fam[i]) // A -> B -> A
+		sc.Filters = append(sc.Filters, sc.Filters[0]) // A -> B -> A
 	case 1:
-		sc.Filters = append(sc.Filters, fam[rng.Intn(len(fam))])
+		sc.Filters = append(sc.Filters, relatedFilter(rng, sc.Filters[1]))
 	}
 	n := rng.Intn(6)
 	seen := map[string]bool{}
